@@ -100,6 +100,26 @@ def run(ctx, rep):
         rep.ob("PROV", "%s operand is unconditional and depends only on its own source" % nm, uncond and back <= allowed,
                "%s operand is %s and depends on parameters %s" % (nm, "Some(..)" if uncond else deep_repr(e)[:70], sorted(f.local_name(x) for x in back)),
                loc=ini.loc())
+    # the 8-byte context / id are *zero*-padded to the 16-byte personal / salt parameters: a widening
+    # cast from a signed integer would sign-extend (bytes 8.. become 0xff when the top bit is set), and
+    # a big-endian conversion would reorder the bytes
+    from ..expr import INT_BITS
+    SIGNED = ("i8", "i16", "i32", "i64", "i128", "isize")
+    for i, nm in ((2, "salt"), (3, "personal")):
+        back = f.backward_slice(operand_locals(ini.args[i]))
+        bad = []
+        for bb, si, st in f.assigns():
+            rv = st["rv"]
+            if st["place"]["l"] not in back or rv["k"] != "cast" or rv.get("kind") != "IntToInt":
+                continue
+            x = rv["x"]
+            src_t = f.locals[x["l"]]["t"] if x.get("k") in ("copy", "move") and not x["p"] else x.get("ty", "")
+            if src_t in SIGNED and INT_BITS.get(rv.get("ty"), 0) > INT_BITS.get(src_t, 0) + 1:
+                bad.append("%s as %s at %s" % (src_t, rv.get("ty"), f.loc(bb)))
+        be = [c for c in f.calls() if c.dest and c.dest["l"] in back and (c.path.endswith("::from_be_bytes") or c.path.endswith("::to_be_bytes") or c.path.endswith("::swap_bytes"))]
+        rep.ob("PROV", "%s is zero-padded, byte order kept" % nm, not bad and not be,
+               ("value-preserving widening only" if not bad and not be else
+                "sign-extending / byte-reordering step on the way to the %s operand: %s" % (nm, bad + [c.path.split("::")[-1] for c in be])), loc=ini.loc())
     out_root = cm.view_info(f, list(operand_locals(fin.args[1]))[0])
     rep.ob("PROV", "output -> subkey", out_root == (subkey, False), "finalize writes the whole subkey parameter", loc=fin.loc())
     st = cm.view_info(f, list(operand_locals(fin.args[0]))[0])[0]
